@@ -212,7 +212,9 @@ func (nv *nodeVariable) Execute(ctx *ExecutionContext, writer TemplateWriter) *E
 		return err
 	}
 
-	if !nv.expr.FilterApplied("safe") && !value.safe && value.IsString() && ctx.Autoescape {
+	// Text can also come out of a fmt.Stringer of any kind (see Value.String())
+	_, isStringer := value.Interface().(fmt.Stringer)
+	if !nv.expr.FilterApplied("safe") && !value.safe && (value.IsString() || isStringer) && ctx.Autoescape {
 		// apply escape filter
 		value, err = filters["escape"](value, nil)
 		if err != nil {
